@@ -20,6 +20,7 @@ import (
 	"strconv"
 	"strings"
 	"sync"
+	"sync/atomic"
 	"testing"
 	"time"
 
@@ -489,7 +490,35 @@ func TestMain(m *testing.M) {
 		}
 		c34WarmUpNote = msg
 	}
-	os.Exit(m.Run())
+	code := m.Run()
+	if code != 0 && c34WarmUpNote != "" && !c34AnyFailed.Load() {
+		// No test function failed and no report appeared during one; the testing package
+		// still ends with "race detected outside of test execution" because of the reports the
+		// warm-up provoked on purpose.  If every report in the log has the known signature,
+		// that is the expected outcome while the finding is listed.
+		allKnown := true
+		for _, r := range c34ReadRaceReports() {
+			if !c34IsKnownRace(r) {
+				allKnown = false
+			}
+		}
+		if allKnown {
+			fmt.Println("C34: every race report in this process is the known shared-err race provoked by the warm-up; no test function failed: exit status 0")
+			code = 0
+		}
+	}
+	os.Exit(code)
+}
+
+var c34AnyFailed atomic.Bool
+
+// c34TrackFailure must be deferred (after c34ExplainRaces is deferred, so that it runs first or
+// second does not matter) by every test function: it records whether the function failed or
+// the race detector reported something while it ran.
+func c34TrackFailure(t *testing.T, before int) {
+	if t.Failed() || len(c34ReadRaceReports()) > before {
+		c34AnyFailed.Store(true)
+	}
 }
 
 // c34ExplainRaces is called at the end of a test function of the -race unit: if the race
@@ -518,10 +547,13 @@ func c34ExplainRaces(t *testing.T, before int) {
 // detector fails the test by itself if any of the executed interleavings races.
 func TestVerifC34Authorize(t *testing.T) {
 	unit := "authz"
-	if c34RaceBuild() {
+	if !c34RaceBuild() {
+		defer c34TrackFailure(t, 0)
+	} else {
 		unit = "authz-race"
 		before := len(c34ReadRaceReports())
 		defer c34ExplainRaces(t, before)
+		defer c34TrackFailure(t, before)
 		if c34WarmUpNote != "" {
 			t.Log(c34WarmUpNote)
 		}
@@ -544,6 +576,7 @@ func TestVerifC34KnownSharedErrRace(t *testing.T) {
 	}
 	before := len(c34ReadRaceReports())
 	defer c34ExplainRaces(t, before)
+	defer c34TrackFailure(t, before)
 	for _, perm := range [][]int{nil, {0, 1, 2}, {2, 1, 0}, {1, 0, 2}} {
 		c := &c34Case{
 			Req:      c34Request{Resource: "networkpolicies", Namespace: "default", Verb: "get", Name: "default.pol", Tier: "default", User: "alice"},
